@@ -207,6 +207,18 @@ def run_case(case, ctx):
                    and bool(cut(ND.is_branch_node, raw)) == (node.kind == "branch")
                    and not cut(ND.is_blank_node, raw),
                    "hexnode-classify", "is_*_node wrong for %s node at %r" % (node.kind, prefix))
+            # the same node as a store handing out bytearrays would decode it (empty slots are
+            # then empty bytearrays, not the interned b'')
+            def _ba(x):
+                return [_ba(i) for i in x] if isinstance(x, list) else bytearray(x)
+
+            rb = _ba(raw)
+            _check(cut(ND.get_node_type, rb) == exp_ty and not cut(ND.is_blank_node, rb), "hexnode-classify",
+                   "%s node at %r is classified differently when its items are bytearrays" % (node.kind, prefix))
+            an_b, an_a = cut(ND.annotate_node, raw), cut(ND.annotate_node, rb)
+            _check([tuple(s) for s in an_a.sub_segments] == [tuple(s) for s in an_b.sub_segments] and bytes(an_a.value) == bytes(an_b.value)
+                   and tuple(an_a.suffix) == tuple(an_b.suffix),
+                   "hexnode-classify", "annotate_node of the %s node at %r differs when its items are bytearrays" % (node.kind, prefix))
             if node.kind != "branch":
                 ek = cut(ND.extract_key, raw)
                 _check(tuple(ek) == node.path, "hexnode-extract-key",
@@ -215,6 +227,8 @@ def run_case(case, ctx):
         _check(cut(ND.get_node_type, b"") == 0 and cut(ND.is_blank_node, b""),
                "hexnode-classify", "blank node not classified blank")
         _check(cut(ND.decode_node, b"") == b"", "hexnode-classify", "decode_node(b'') not blank")
+        _check(cut(ND.get_node_type, bytearray(b"")) == 0 and cut(ND.is_blank_node, bytearray(b"")),
+               "hexnode-classify", "an empty bytearray is not classified as the blank node")
         # the blank node as it is stored in a database: rlp(b'') = 0x80
         blank = cut(ND.decode_node, b"\x80")
         _check(blank == b"" and cut(ND.get_node_type, blank) == 0 and cut(ND.is_blank_node, blank),
